@@ -153,3 +153,26 @@ def make_assertion(cred, rp_id, challenge, origin, flags=0x05, count=1, cred_id=
     ad = authdata(rp_id, flags, count, aaguid=bytes(16), cred_id=cred_id, cose_bytes=cred.cose_bytes, ext=ext)
     sig = (signer or cred).sign(ad + hashlib.sha256(cdj).digest(), sign_scheme)
     return Assertion(cred, cred_id, cdj, ad, sig, **kw)
+
+
+def ed_cred_leading_zero():
+    """An Ed25519 credential whose 32-byte encoded public key starts with 0x00 (about 1 key in 256)."""
+    def make():
+        while True:
+            k = ed25519.Ed25519PrivateKey.generate()
+            if k.public_key().public_bytes(serialization.Encoding.Raw, serialization.PublicFormat.Raw)[0] == 0:
+                return k
+    return Cred("EdDSA", sk=_load_or_make("ed_leading_zero", make))
+
+
+def short_ecdsa_signature(cred, msg, scheme=None, tries=20000):
+    """A valid ECDSA signature whose DER encoding is shorter than usual (r or s with a leading zero byte dropped)."""
+    usual = {"secp256r1": 70, "secp384r1": 102, "secp521r1": 137}[cred.pk.curve.name]
+    best = None
+    for _ in range(tries):
+        sig = cred.sign(msg, scheme)
+        if best is None or len(sig) < len(best):
+            best = sig
+        if len(sig) < usual:
+            return sig
+    return best
